@@ -333,6 +333,7 @@ def main(prop, modname, tier, seed, replay=None):
 
     # -- known-finding witnesses and fixed/regress replays ---------------------------------
     replayed = 0
+    printed_keys = set()
     for e in load_known():
         if e["property"] != prop:
             continue
@@ -347,7 +348,9 @@ def main(prop, modname, tier, seed, replay=None):
         replayed += 1
         if e.get("status") == "known":
             if not v["ok"] and v.get("key") == e["key"]:
-                print("KNOWN-FINDING: property=%s %s" % (prop, e["summary"]))
+                if e["key"] not in printed_keys:        # one line per finding, however many witnesses it has
+                    printed_keys.add(e["key"])
+                    print("KNOWN-FINDING: property=%s %s" % (prop, e["summary"]))
             elif not v["ok"]:
                 violations.append((w, "known-finding witness fails differently: %s" % v.get("clause")))
             else:
